@@ -51,6 +51,11 @@ partial def tokLoop (eat : Src → Tok × Src) (takeErr : Src → Option String 
       match takeErr s1 with
       | (some m, s2) => (base ++ (if m.isEmpty then ":EMPTY" else ":E"), s2)
       | (none, s2) => (base ++ ":NOMSG", s2)
+    else if t.kind == .Eof then
+      -- a message still parked when the stream ends: `ParserBase::finish` reports it
+      match takeErr s1 with
+      | (some m, s2) => (base ++ (if m.isEmpty then ":PEMPTY" else ":P"), s2)
+      | (none, s2) => (base, s2)
     else (base, s1)
   let acc := acc.push str
   if t.kind == .Eof then acc else tokLoop eat takeErr s2 acc
